@@ -472,9 +472,14 @@ def _pp_build(v, val, pp, ev, Raised, hooks):
     if isinstance(v, T) and v.op == 'mcall' and v.args[1] in (
             'parseString', 'parse_string'):
         g = ev(v.args[0], val, hooks)
-        s_ = ev(v.args[2], val, hooks)
+        pos_, kw_ = [], {}
+        for a_ in v.args[2:]:
+            if isinstance(a_, T) and a_.op == 'kw':
+                kw_[a_.args[0]] = ev(a_.args[1], val, hooks)
+            else:
+                pos_.append(ev(a_, val, hooks))
         try:
-            return list(g.parseString(s_))
+            return list(getattr(g, v.args[1])(*pos_, **kw_))
         except pp.ParseException:
             raise Raised('pyparsing.ParseException')
     return NotImplemented
